@@ -78,3 +78,14 @@ Theorem C02_save_iff : forall s q f a c,
        g_dropped s' = g_dropped s ++ map (fun t => (t, why)) (tags (rq_items q))).
 Proof. exact save_iff. Qed.
 Print Assumptions C02_save_iff.
+
+(* "... if and only if the status is retryable (408, 429, 500, 503)": the class a collector answer has for
+   the processor model, as a function of the status code (Status.v; every code 200..599 is swept through the
+   real HTTP client against this function on every run). *)
+From Verif Require Import Status.
+Theorem C02_retryable_status_iff : forall code,
+  (outcome_of_code code = OFail FRetry <-> In code [408; 429; 500; 503]%N) /\
+  (rc_save (classify code) = true <-> In code [408; 429; 500; 503]%N) /\
+  (outcome_of_code code = OOk <-> (code = 200 \/ code = 202)%N).
+Proof. intros code. exact (conj (outcome_retry_iff code) (conj (save_iff code) (outcome_ok_iff code))). Qed.
+Print Assumptions C02_retryable_status_iff.
